@@ -128,7 +128,7 @@ PROPS = {
     "C05": {
         "invariants": ["C05", "Term_WeakInert"],
         "mc": {"quick": [mc("Life-handles-2x2", ops=HOPS, scripts="ScriptsPlain", must_cover=("MailboxClosed", "Upgrade", "DropH", "Convert")),
-                         mc("Life-weak-2x2", ops=("send", "call", "drop", "upgrade", "clone"), kinds="InitKindsWeak", scripts="ScriptsPlain", cfgs="CfgsB1")],
+                         mc("Life-weak-2x2", ops=("send", "call", "drop", "upgrade", "clone", "force_send"), kinds="InitKindsWA", scripts="ScriptsPlain", cfgs="CfgsB1")],
                "thorough": [mc("Life-handles-b1-2x3", maxops=3, ops=HOPS, scripts="ScriptsPlain", cfgs="CfgsB1"),
                             mc("Life-weak-3x2", ops=("send", "call", "drop", "upgrade", "clone"), kinds="InitKindsWeak", scripts="ScriptsPlain", clients=C3, cfgs="CfgsB1"),
                             mc("Stream-drop-2x2", ops=("send", "drop", "feed", "upgrade"), scripts="ScriptsPlain", cfgs="CfgsStream", kinds="InitKindsAW")]},
